@@ -5,7 +5,7 @@
 export GOFLAGS=-mod=mod GOPROXY=off GOSUMDB=off GOTOOLCHAIN=local
 ID=$1; N=${2:-200}; SEED=${3:-1}; shift; shift || true; shift || true
 VERIF_RUNS=0 /verif/bin/verif check $ID --keep >/dev/null 2>&1 || true
-D=${VERIF_SCRATCH:-/tmp/verif-scratch}/$ID
+D=$(ls -dt ${VERIF_SCRATCH:-/tmp/verif-scratch}/$ID-* | head -1)
 mkdir -p $D/dev && cd $D/dev
 timeout -s QUIT ${DEVTIMEOUT:-240} env VERIF_CHECK=$ID VERIF_OUT=$D/dev/stats.json VERIF_KNOWN=${VERIF_KNOWN:-/verif/KNOWN_FINDINGS.txt} $D/worker.test -test.run '^TestWorker$' -test.timeout 0 -rapid.checks=$N -rapid.seed=$SEED -rapid.shrinktime=10s -rapid.nofailfile "$@" > $D/dev/out.txt 2>&1; grep -v "\[rapid\] draw" $D/dev/out.txt | tail -${TAIL:-15}
 python3 -c "
